@@ -17,6 +17,9 @@
 (*           slabs to the particles in dat_order)                           *)
 (* Theorem : Load(Save(p)) = p with the same particle assignment, for every *)
 (*           n, N, composition, permutation and layout.                     *)
+(* The configuration-level cached-data file (sessions, weight scaling       *)
+(* applied exactly once on the file path and on the cached path) is the     *)
+(* state machine spec/CachedData.tla.                                       *)
 EXTENDS Integers, Sequences, FiniteSets, TLC, Json, IOUtils
 
 CONSTANTS MaxP,     \* largest number of particles
